@@ -57,10 +57,11 @@ struct ContT
 struct Wrap
 {
     int from = 0;
+    int as_rvalue = -1;     // the value category in which the argument REACHED T's constructor (an rvalue may be moved from)
     Wrap() = default;
-    Wrap(const Tr& t) : from(t.id) {}
-    Wrap(Tr&& t) : from(t.id) {}
-    Wrap(TrMO&& t) : from(t.id) {}
+    Wrap(const Tr& t) : from(t.id), as_rvalue(0) {}
+    Wrap(Tr&& t) : from(t.id), as_rvalue(1) {}
+    Wrap(TrMO&& t) : from(t.id), as_rvalue(1) {}
 };
 // a list type as std::vector is one: a braced list of elements builds that list, parentheses around a number build a COUNT
 struct ListT
